@@ -103,6 +103,13 @@ def match_known(known, pid, ob):
 
 def do_replay(path):
     data = json.load(open(path))
+    if data.get("rt"):
+        # a bounded stand-in violation: re-run the stand-in with the recorded tier/seed on the current tree
+        modname, fname = data["rt"].split(":")
+        res = getattr(importlib.import_module(modname), fname)(data.get("tier", "quick"), data.get("seed", 0))
+        hits = [v for v in res.get("violations", []) if v["name"] == data["name"]]
+        print(json.dumps({"violated": [data["name"]] if hits else [], "detail": hits[:1]}, indent=1, default=str))
+        return 1 if hits else 0
     modname, hname = data["harness"].split(":")
     mod = importlib.import_module(modname)
     h = [x for x in mod.HARNESSES if x.name == hname][0]
@@ -209,7 +216,7 @@ def main():
         rt_results.append(res)
         for v in res.get("violations", []):
             path = os.path.join(HERE, "replay", f"{pid}-rt-{v['name']}.json")
-            json.dump(dict(v, property=pid), open(path, "w"), indent=1, default=str)
+            json.dump(dict(v, property=pid, rt=fn, tier=a.tier, seed=seed), open(path, "w"), indent=1, default=str)
             kf = match_known(known, pid, {"name": v["name"], "witness": v.get("witness")})
             if kf:
                 known_hits.append((kf, {"name": v["name"]}))
